@@ -79,8 +79,9 @@ def Bed.clean (b : Bed.Bed) : Prop := Bed.textOK b.chrom ∧ Bed.textOK b.name
 instance (b : Bed.Bed) : Decidable (Bed.clean b) := by unfold Bed.clean; infer_instance
 
 /-- What the parser guarantees about every accepted record: it is well formed for its own
-field count `N` (ints in the 64-bit range, valid strand, block lists as long as the block
-count, chrom not starting with `#`), and the fields beyond `N` are zero. -/
+field count `N` (ints in the 64-bit range, valid strand, the block lists the line carries
+— sizes from 11 fields on, starts with 12 — as long as the block count, chrom not starting
+with `#`), and the fields beyond `N` are zero. -/
 theorem C11_bed_accepted_wf (e : Ending) (x : Bytes) (b : Bed.Bed)
     (hm : Item.ok b ∈ Bed.decodeSrc e x) (hc : Bed.clean b) :
     ∃ N : Nat, Bed.WF N b ∧ Bed.truncate N b = b :=
@@ -106,6 +107,22 @@ example :
 example :
     Item.ok ({ Bed.exA with chrom := [] } : Bed.Bed) ∈ Bed.decode [9, 49, 9, 50] ∧
     Bed.clean { Bed.exA with chrom := [] } := by
+  decide +kernel
+
+/-- A 10-field line with block count 5 (`a\t1\t2\t\t\t\t\t\t\t5`): accepted, with block count 5
+and empty lists; the record is well formed for `N = 10` and is a fixed point. -/
+example :
+    Item.ok ({ Bed.exA with n := 10, blockCount := 5 } : Bed.Bed) ∈
+      Bed.decode [97, 9, 49, 9, 50, 9, 9, 9, 9, 9, 9, 9, 53] ∧
+    Bed.clean { Bed.exA with n := 10, blockCount := 5 } ∧
+    Bed.WF 10 { Bed.exA with n := 10, blockCount := 5 } ∧
+    Bed.truncate 10 { Bed.exA with n := 10, blockCount := 5 } = { Bed.exA with n := 10, blockCount := 5 } := by
+  decide +kernel
+
+/-- An 11-field line with block count 2 and two sizes, no starts. -/
+example :
+    Item.ok (Bed.truncate 11 Bed.ex11) ∈ Bed.decode ((Bed.encodeLine Bed.ex11).getD []) ∧
+    Bed.clean (Bed.truncate 11 Bed.ex11) ∧ (Bed.truncate 11 Bed.ex11).blockCount = 2 := by
   decide +kernel
 
 /-! ## SAM -/
